@@ -140,10 +140,119 @@ func keysComparable(v interface{}) bool {
 	return true
 }
 
+// guideEntry: a list diff where the implementation's index list is not the one the model computes
+// (least unused position with the same key).
+type guideEntry struct {
+	Old, New []interface{}
+	Idx      []int
+}
+
+type deltaWalk struct {
+	guides []guideEntry
+}
+
+// matchingOK: what the documentation of computeReorderIndices promises about the index list: every index is the
+// position of an old element with the same reorder key, no position is used twice, and -1 is given only when every
+// old position with that key is used.
+func matchingOK(old, nw []interface{}, idx []int) string {
+	if len(idx) != len(nw) {
+		return "index list has the wrong length"
+	}
+	used := make([]int, len(old))
+	for i, j := range idx {
+		if j == -1 {
+			continue
+		}
+		if j < 0 || j >= len(old) {
+			return fmt.Sprintf("index %d out of range", j)
+		}
+		if refKey(old[j]) != refKey(nw[i]) {
+			return fmt.Sprintf("new[%d] matched with old[%d], which has another key", i, j)
+		}
+		used[j]++
+		if used[j] > 1 {
+			return fmt.Sprintf("old[%d] used twice", j)
+		}
+	}
+	for i, j := range idx {
+		if j != -1 {
+			continue
+		}
+		for p := range old {
+			if used[p] == 0 && refKey(old[p]) == refKey(nw[i]) {
+				return fmt.Sprintf("new[%d] is given -1 although old[%d] has its key and is unused", i, p)
+			}
+		}
+	}
+	return ""
+}
+
+// collect walks (old, new, delta after JSON) the way diff.Diff did and notes every list diff whose index list
+// (read from the delta; the identity when "$" is absent) is not the one the model computes.
+func (w *deltaWalk) collect(old, nw, d interface{}) {
+	dm, ok := d.(map[string]interface{})
+	if !ok {
+		return
+	}
+	switch n := nw.(type) {
+	case map[string]interface{}:
+		o, ok := old.(map[string]interface{})
+		if !ok {
+			return
+		}
+		for k, dv := range dm {
+			ov, h1 := o[k]
+			nv, h2 := n[k]
+			if h1 && h2 {
+				w.collect(ov, nv, dv)
+			}
+		}
+	case []interface{}:
+		o, ok := old.([]interface{})
+		if !ok {
+			return
+		}
+		var got []int
+		if c, has := dm["$"]; has {
+			g, ok, _ := decodeReorder(c)
+			if !ok {
+				return
+			}
+			got = g
+		} else if len(o) == len(n) {
+			got = make([]int, len(n))
+			for i := range got {
+				got[i] = i
+			}
+		}
+		if len(got) != len(n) {
+			return
+		}
+		for _, j := range got {
+			if j >= len(o) {
+				return
+			}
+		}
+		if want := refIndices(o, n); !reflect.DeepEqual(got, want) && len(got) > 0 {
+			w.guides = append(w.guides, guideEntry{Old: o, New: n, Idx: got})
+		}
+		for i, nv := range n {
+			var ov interface{}
+			if got[i] >= 0 {
+				ov = o[got[i]]
+			}
+			if dv, has := dm[strconv.Itoa(i)]; has {
+				w.collect(ov, nv, dv)
+			}
+		}
+	}
+}
+
 // checkDelta walks (old, new, delta after JSON) and returns the first departure from the documented delta
-// format, "" if none.  nullKeys: explicit nil keys occur (the "__key" pseudo-field may then show up, which
-// is the separate finding the caller reports).
-func checkDelta(old, nw, d interface{}, path string) string {
+// format, "" if none.  Index lists are read from the delta (the identity when "$" is absent); they must be
+// matchings as documented (matchingOK), not necessarily the ones the model computes - those that differ are
+// collected in w.guides.
+func (w *deltaWalk) checkDelta(old, nw, d interface{}, path string) string {
 	if d == nil {
 		if !sameValue(old, nw) {
 			return path + ": no delta although the values differ"
@@ -178,7 +287,7 @@ func checkDelta(old, nw, d interface{}, path string) string {
 			if !inD {
 				dv = nil
 			}
-			if msg := checkDelta(ov, nv, dv, path+"."+k); msg != "" {
+			if msg := w.checkDelta(ov, nv, dv, path+"."+k); msg != "" {
 				return msg
 			}
 		}
@@ -213,42 +322,47 @@ func checkDelta(old, nw, d interface{}, path string) string {
 		if !ok {
 			return path + ": delta-not-local: list resent whole"
 		}
-		want := refIndices(o, n)
-		identity := len(o) == len(n)
-		for i, j := range want {
-			if i != j {
-				identity = false
-			}
-		}
-		c, has := dm["$"]
-		if identity && has {
-			return path + ": delta-not-minimal: reorder field although the order is unchanged"
-		}
-		if !identity {
-			if !has {
-				return path + ": reorder field missing"
-			}
-			got, ok, canonical := decodeReorder(c)
+		var got []int
+		if c, has := dm["$"]; has {
+			g, ok, canonical := decodeReorder(c)
 			if !ok {
 				return path + ": reorder field malformed"
 			}
-			if !reflect.DeepEqual(got, want) && !(len(got) == 0 && len(want) == 0) {
-				return fmt.Sprintf("%s: reorder-indices-not-per-spec: got %v want %v", path, got, want)
-			}
+			got = g
 			if !canonical {
 				return path + ": reorder-runs-not-maximal"
 			}
+			identity := len(o) == len(got)
+			for i, j := range got {
+				if i != j {
+					identity = false
+				}
+			}
+			if identity {
+				return path + ": delta-not-minimal: reorder field although the order is unchanged"
+			}
+		} else {
+			if len(o) != len(n) {
+				return path + ": reorder field missing although the length changed"
+			}
+			got = make([]int, len(n))
+			for i := range got {
+				got[i] = i
+			}
+		}
+		if msg := matchingOK(o, n, got); msg != "" {
+			return fmt.Sprintf("%s: reorder-indices-not-a-matching: %s (indices %v)", path, msg, got)
 		}
 		for i, nv := range n {
 			var ov interface{}
-			if want[i] >= 0 {
-				ov = o[want[i]]
+			if got[i] >= 0 {
+				ov = o[got[i]]
 			}
 			dv, inD := dm[strconv.Itoa(i)]
 			if !inD {
 				dv = nil
 			}
-			if msg := checkDelta(ov, nv, dv, fmt.Sprintf("%s[%d]", path, i)); msg != "" {
+			if msg := w.checkDelta(ov, nv, dv, fmt.Sprintf("%s[%d]", path, i)); msg != "" {
 				return msg
 			}
 		}
@@ -284,12 +398,14 @@ func wantReplacement(nw, d interface{}, path string) string {
 
 // ---- well-formed deltas (for the agreement of the two clients) ----
 
+// isRepl: a replacement as the documentation describes it: a raw scalar or a ONE-element array (merge.go and
+// merge.ts also take the first element of a longer array; that is not part of the format).
 func isRepl(d interface{}) bool {
 	switch x := d.(type) {
 	case bool, float64, string:
 		return true
 	case []interface{}:
-		return len(x) > 0
+		return len(x) == 1
 	}
 	return false
 }
@@ -299,7 +415,8 @@ func isRemovalMarker(d interface{}) bool {
 	return ok && len(a) == 0
 }
 
-// expandForMerge expands "$" as merge.go does; ok=false where it errors or panics.
+// expandForMerge expands a "$" field that follows the documented format: integers that are -1 or positions of
+// the previous list, and runs [start, count] of positions with count >= 1.
 func expandForMerge(c interface{}, n int) ([]int, bool) {
 	arr, isArr := c.([]interface{})
 	if !isArr {
@@ -319,7 +436,7 @@ func expandForMerge(c interface{}, n int) ([]int, bool) {
 			}
 			s, ok1 := x[0].(float64)
 			c, ok2 := x[1].(float64)
-			if !ok1 || !ok2 || s != math.Trunc(s) || c != math.Trunc(c) || c > 50 {
+			if !ok1 || !ok2 || s != math.Trunc(s) || c != math.Trunc(c) || c > 50 || c < 1 || s < 0 {
 				return nil, false
 			}
 			for i := 0; i < int(c); i++ {
@@ -337,7 +454,8 @@ func expandForMerge(c interface{}, n int) ([]int, bool) {
 	return idx, true
 }
 
-// wellFormedDelta: d is a delta a correct server could send for a client holding prev.
+// wellFormedDelta: d is a delta in the documented format that a correct server could send to a client holding prev
+// (a subset of the model's [vdwf], which admits everything merge.go accepts).
 func wellFormedDelta(prev, d interface{}) bool {
 	dm, ok := d.(map[string]interface{})
 	if !ok {
